@@ -135,7 +135,13 @@ func verifHarness_C13_failed_write(cause int, k int, wrap int) {
 	verifRunGoroutines(nil)
 	_, closes, _, _, _ = verifDrainEvents(n)
 	before := len(t.Buf())
-	ch.write(&message.MessageRaw{ID: 202, Payload: []byte{9, 9, 9, 9, 9}})
+	// a further valid item of the same kind (a pure router only ever forwards frames)
+	if cause == 2 {
+		fr2, _ := verifForwardFrame(true)
+		ch.write(fr2)
+	} else {
+		ch.write(&message.MessageRaw{ID: 202, Payload: []byte{9, 9, 9, 9, 9}})
+	}
 	verifRunGoroutines(nil)
 	_, closes2, _, _, _ := verifDrainEvents(n)
 	closes += closes2
